@@ -62,7 +62,7 @@ SleepWithinRemaining == (ev.e = "sleep") => (ev.s >= 0 /\ ev.s <= cfg.D - ev.t)
 Inf == 1000
 NoLim == [k \in Classes |-> None]
 Base == [maxAtt |-> 3, lim |-> NoLim, maxUnk |-> None, D |-> Inf, hasDefault |-> TRUE,
-         strat |-> {}, legacy |-> {}, budget |-> None, handler |-> FALSE, abort |-> FALSE,
+         strat |-> {}, legacy |-> {}, budget |-> None, bW |-> 100000, handler |-> FALSE, abort |-> FALSE,
          rc |-> FALSE, bsleep |-> FALSE, opname |-> TRUE]
 
 Val(n) == [kind |-> "val", v |-> n]
@@ -71,6 +71,7 @@ OkOut == Out("ok", "-", None)
 FailOuts(kinds, classes, ras) == { Out(o, k, ra) : o \in kinds, k \in classes, ra \in ras }
 
 RetsOne == {Val(1)}
+RetsTwoSmall == {Val(0), Val(2)}
 RasNone == {None}
 BFaultsNone == {"none"}
 BFaultsAll == {"none", "error", "kbd", "sysexit", "cancel"}
@@ -159,7 +160,7 @@ OutsC05x == {OkOut, Out("exc", T, None), Out("res", R, 2), Out("exc", U, 0)}
 TablesC05 == { <<TRUE, {}, {}>>, <<TRUE, {T}, {}>>, <<FALSE, {T, R, U}, {}>>,
                <<TRUE, {T}, {"default"}>>, <<TRUE, {T, R}, {T}>>, <<FALSE, {T, R, U}, {R, U}>> }
 ConfigsC05 ==
-    { [Base EXCEPT !.maxAtt = 4, !.rc = TRUE, !.D = 10, !.hasDefault = tb[1], !.strat = tb[2],
+    { [Base EXCEPT !.maxAtt = 3, !.rc = TRUE, !.D = 10, !.hasDefault = tb[1], !.strat = tb[2],
                    !.legacy = tb[3], !.handler = ha, !.bsleep = ha] :
         tb \in TablesC05, ha \in BOOLEAN }
 ConfigsC05x ==
@@ -188,6 +189,17 @@ ConfigsC15x ==
                    !.lim = [NoLim EXCEPT ![T] = 1], !.budget = 1, !.handler = ha, !.bsleep = TRUE,
                    !.abort = ab] :
         d \in {3, Inf}, ha \in BOOLEAN, ab \in BOOLEAN }
+
+\* ---- C10: policies sharing a rolling-window budget ----------------------------
+OutsC10 == {OkOut, Out("exc", T, None), Out("res", T, None)}
+ConfigsC10 ==
+    { [Base EXCEPT !.maxAtt = ma, !.rc = TRUE, !.budget = bu, !.bW = w] :
+        ma \in {3}, bu \in {0, 1, 2}, w \in {2, 3, 5} }
+ConfigsC10x ==
+    { [Base EXCEPT !.maxAtt = 3, !.rc = TRUE, !.budget = bu, !.bW = w] :
+        bu \in {1, 2}, w \in {3} }
+GapsC10 == {0, 1, 3}
+GapsNone == {0}
 
 \* ---- C13: abort and cancellation ---------------------------------------------
 OutsC13 == {OkOut, Out("exc", T, None), Out("res", T, None), Out("abort", "-", None),
